@@ -581,7 +581,7 @@ def check_C05(run, replay):
                 "{-1,0,1e-300,+inf,NaN}, threads {0,1,2,3,16,usize::MAX/3+1,usize::MAX}, three methods, fifteen games incl. an opponent infoset shared by all parallel tasks, all "
                 "payoffs equal, a player without decisions, no decision at all (chance only / forced moves only), payoffs of "
                 "magnitude 1e6) by a deterministic stride slice and "
-                "states the specified verdict (ThreadDecision); every point runs in a child process under a 30 s watchdog: "
+                "states the specified verdict (ThreadDecision); every point runs in a child process under a 30 s watchdog (run again with 120 s before it counts as a hang): "
                 "normal return or the documented error, every infoset a distribution, bounds non-negative numbers that are "
                 "infinite iff the budget is 0; plus the dynamic-range family (strategy exponents 50..1000 x budgets 1..1500 "
                 "x regret exponents down to -1000 x fallback weights on games with an infoset reached in the first "
@@ -589,7 +589,7 @@ def check_C05(run, replay):
                 "16 threads, on the game whose opponent infoset is shared by all parallel tasks) and the constructor family "
                 "(RegretParams::new over {-1,1,NaN,+-inf}^4 panics exactly as documented); distinct by lattice index; "
                 "every point is non-trivial")
-    run.assumptions = ["|payoff| <= 1e6", "hang = no return within 30 s",
+    run.assumptions = ["|payoff| <= 1e6", "hang = no return within 30 s and, run again, within 120 s",
                        "usize::MAX/3 itself (65535 real threads in rayon) is not exercised: resource hazard for the sandbox"]
     if replay:
         cases, rows = replay_pipeline(run, "lattice", replay_case(replay)["case"])
